@@ -57,14 +57,14 @@ CLAIMED = {
    "Seeded search over limit placement {caller, callee, both, neither}, limit values and request/response header and body sizes at limit-2..limit+2 (header sizes from the reference encoder): within all limits delivered intact; above the sender's limit refused before transmission with no handler invocation; above the receiver's limit only that RPC fails; never a hang, a LostPeer or a broken follow-up RPC; thorough adds the 8 MiB boundary with no limit configured.",
    NET_NOTE, TECH),
  "C18": ("exploration", "DESIGN.md §8 C18",
-   "Seeded search over arrival, completion, failure and cancellation schedules from 2-4 peers through clones of one real InflightLimitLayer, driven directly on the virtual clock and end to end behind a Network: per-peer gauge never exceeds the limit, ReturnError refuses exactly when the model is at the limit, Block admits when a slot frees, no permit leaks after long histories, one peer never delays another.",
+   "Seeded search over arrival, completion, failure and cancellation schedules from 2-4 peers through clones of one real InflightLimitLayer, driven directly on the virtual clock and end to end behind a Network: per-peer gauge never exceeds the limit, ReturnError refuses exactly when the model is at the limit, Block admits when a slot frees, no permit leaks after long histories, one peer never delays another. Second engine (DESIGN.md 13.8): the same layer driven by 2-4 real threads under Miri's seeded scheduler, which preempts at arbitrary points of synchronous code - what a single-threaded simulation cannot do; every (case, seed) is one exactly repeatable thread interleaving.",
    "Real anemo-tower layer and tokio semaphore under the simulator's scheduler and virtual clock; bounded histories.", TECH),
  "C19": ("exploration", "DESIGN.md §8 C19",
-   "Seeded search on simulated time: one real RateLimitLayer (governor's GCRA on its own MonotonicClock, which follows the simulated clock; waits are simulated timers) with burst 1-8 and one cell per 2 ms - 2 s, 1-4 peers, 5-120 requests at PRNG instants over up to 40 periods through clones and through several services of one layer, both wait modes, cancelled waiters; oracles: every window of a peer's admissions against a bucket of burst cells (replay of the actual admission instants), refusals only when less than one cell is available, immediate, with a positive hint, never reaching the service; in Block mode every request admitted no later than the first-come-first-served schedule of its own quota plus one period; per-peer independence by comparison with a second limiter that sees only that peer. A second scenario keeps the frozen regime (one cell per hour). Known finding F-D: governor 0.6.3 keeps burst+1 cells once a bucket has been full.",
+   "Seeded search on simulated time: one real RateLimitLayer (governor's GCRA on its own MonotonicClock, which follows the simulated clock; waits are simulated timers) with burst 1-8 and one cell per 2 ms - 2 s, 1-4 peers, 5-120 requests at PRNG instants over up to 40 periods through clones and through several services of one layer, both wait modes, cancelled waiters; oracles: every window of a peer's admissions against a bucket of burst cells (replay of the actual admission instants), refusals only when less than one cell is available, immediate, with a positive hint, never reaching the service; in Block mode every request admitted no later than the first-come-first-served schedule of its own quota plus one period; per-peer independence by comparison with a second limiter that sees only that peer. A second scenario keeps the frozen regime (one cell per hour). Known finding F-D: governor 0.6.3 keeps burst+1 cells once a bucket has been full. Second engine (DESIGN.md 13.8): the same layer driven by 2-4 real threads under Miri's seeded scheduler, which preempts at arbitrary points of synchronous code - what a single-threaded simulation cannot do; every (case, seed) is one exactly repeatable thread interleaving.",
    "Real anemo-tower layer and real governor 0.6.3 source; the simulator build switches governor's optional quanta feature off (vendored manifest) so that its clock is std::time::Instant, which the clock seam answers with simulated time, and replaces futures-timer by a Delay on the tokio clock (DESIGN.md 13.7). The production build's cycle-counter clock and timer thread are not exercised.", TECH),
  "C20": ("exploration", "DESIGN.md §8 C20",
-   "Seeded search end to end (sender identity comes from the simulated handshake, allow-list a PRNG subset of 3-5 peers, concurrent requests over the faulty fabric) and directly through clones of the layered service with listed/unlisted/absent senders and closure authorizers returning arbitrary responses: the wrapped service's log contains exactly the accepted requests and refusals carry exactly the authorizer's response.",
-   "Real anemo-tower layer; the layer holds no mutable state, so the schedule dimension is expected to be inert.", TECH),
+   "Seeded search end to end (sender identity comes from the simulated handshake, allow-list a PRNG subset of 3-5 peers, concurrent requests over the faulty fabric) and directly through clones of the layered service with listed/unlisted/absent senders and closure authorizers returning arbitrary responses: the wrapped service's log contains exactly the accepted requests and refusals carry exactly the authorizer's response. Second engine (DESIGN.md 13.8): the same layer driven by 2-4 real threads under Miri's seeded scheduler, which preempts at arbitrary points of synchronous code - what a single-threaded simulation cannot do; every (case, seed) is one exactly repeatable thread interleaving.",
+   "Real anemo-tower layer; the layer as shipped holds no mutable state, so the schedule dimension is inert for it - not for changes that add caches or lazily built indexes, which the thread-interleaving engine is there for.", TECH),
 }
 
 NOT_APPLICABLE = {
@@ -91,7 +91,7 @@ def main():
             "thorough_cmd": f"./check {pid} thorough",
             "evidence_file": f"/verif/evidence/{pid}.json",
             "replay_cmd_template": "./check replay {path}",
-            "engine": "netsim" if pid not in ("C07",) else "streamsim",
+            "engine": "streamsim" if pid == "C07" else ("netsim+threads" if pid in ("C18", "C19", "C20") else "netsim"),
             "level_claimed": {"category": cat, "text": text, "design_ref": ref},
             "level_note": note,
             "technique": tech,
@@ -103,7 +103,7 @@ def main():
         na.append({"property_id": pid, "reason": NOT_APPLICABLE.get(pid, PENDING_REASON)})
     manifest = {
         "version": 1,
-        "setup_cmd": "cd /verif/sim && CARGO_NET_OFFLINE=true cargo build --release --offline && ./target/release/sim selftest --n 8",
+        "setup_cmd": "cd /verif/sim && CARGO_NET_OFFLINE=true cargo build --release --offline && ./target/release/sim selftest --n 8 && cd /verif/miri && CARGO_NET_OFFLINE=true cargo +nightly miri run --offline -q -- C20 0",
         "hooks": {
             "guard": "bmwill_anemo_verif",
             "enable": "RUSTFLAGS='--cfg bmwill_anemo_verif --cfg tokio_unstable' (set in /verif/sim/.cargo/config.toml; the simulator crate path-depends on /repo/crates/anemo and /repo/crates/anemo-tower, so every check rebuilds from /repo's working tree). Seams outside /repo, in the simulator's own build only ([patch.crates-io] in /verif/sim/Cargo.toml): vendor/tokio (1.53.1 + runtime::sim_sched: order of runnable tasks, held tasks), vendor/governor (0.6.3, quanta feature off), vendor/futures-timer (Delay on the tokio clock)",
@@ -114,6 +114,8 @@ def main():
         "engines": [
             {"name": "netsim", "path": "/verif/sim", "serves_properties": [c["property_id"] for c in checks if c["engine"] == "netsim"],
              "kind_free_text": "deterministic simulation: real anemo Networks + real quinn/rustls on an in-memory datagram fabric, tokio paused clock, seeded faults, replay + minimisation"},
+            {"name": "netsim+threads", "path": "/verif/sim + /verif/miri", "serves_properties": [c["property_id"] for c in checks if c["engine"] == "netsim+threads"],
+             "kind_free_text": "the netsim engine, followed by the anemo-tower layer under real threads with Miri's seeded scheduler (preemption at arbitrary points of synchronous code; one (case, seed) = one repeatable thread interleaving)"},
             {"name": "streamsim", "path": "/verif/sim", "serves_properties": [c["property_id"] for c in checks if c["engine"] == "streamsim"],
              "kind_free_text": "wire codecs over a simulated byte stream with short reads/writes, EOF and I/O errors at every offset"},
         ],
